@@ -59,19 +59,19 @@ contract('message.PayloadKE.parse', params={'data': Bytes, 'critical': Bool}, re
 contract('message.Transform.parse', params={'data': Bytes}, returns=Rec('Transform'),
          props=P_PARSE, raises=ONLY_PROTOCOL_ERRORS,
          ensures={'consumed': 'len(data) >= 4'},
-         loops={0: loop(invariant=['offset >= 4'], variant='len(data) - offset')})
+         loops={0: loop(invariant=['offset >= 4'], variant='len(data) - offset', bound='len(data)')})
 
 contract('message.Proposal.parse', params={'data': Bytes}, returns=Rec('Proposal'),
          props=P_PARSE, raises=ONLY_PROTOCOL_ERRORS,
          ensures={'consumed': 'len(data) >= 4', 'non-empty': 'len(result.transforms) > 0'},
          locals={'transforms': List(Rec('Transform'))},
-         loops={0: loop(invariant=['offset >= 4'], variant='len(data) - offset')})
+         loops={0: loop(invariant=['offset >= 4'], variant='len(data) - offset', bound='len(data)')})
 
 contract('message.PayloadSA.parse', params={'data': Bytes, 'critical': Bool}, returns=Rec('PayloadSA'),
          props=P_PARSE, raises=ONLY_PROTOCOL_ERRORS,
          ensures={'consumed': 'len(data) >= 1'},
          locals={'proposals': List(Rec('Proposal'))},
-         loops={0: loop(invariant=['offset >= 0'], variant='len(data) - offset')})
+         loops={0: loop(invariant=['offset >= 0'], variant='len(data) - offset', bound='len(data)')})
 
 contract('message.PayloadVENDOR.parse', params={'data': Bytes, 'critical': Bool}, returns=Rec('PayloadVENDOR'),
          props=P_PARSE, raises=ONLY_PROTOCOL_ERRORS, ensures={'consumed': 'len(data) >= 1'})
@@ -98,7 +98,7 @@ contract('message.PayloadTS.parse', params={'data': Bytes, 'critical': Bool}, re
          props=P_PARSE, raises=ONLY_PROTOCOL_ERRORS,
          ensures={'consumed': 'len(data) >= 4', 'class': 'class_is(result, cls)'},
          locals={'traffic_selectors': List(Rec('TrafficSelector'))},
-         loops={0: loop(invariant=['offset >= 4'], variant='len(data) - offset')})
+         loops={0: loop(invariant=['offset >= 4'], variant='len(data) - offset', bound='len(data)')})
 
 contract('message.PayloadSK.parse', params={'data': Bytes, 'critical': Bool}, returns=Rec('PayloadSK'),
          props=P_PARSE, raises={},
@@ -108,11 +108,41 @@ contract('message.PayloadDELETE.parse', params={'data': Bytes, 'critical': Bool}
          props=P_PARSE, raises=ONLY_PROTOCOL_ERRORS,
          ensures={'consumed': 'len(data) >= 4'},
          locals={'spis': List(Bytes)},
-         loops={0: loop(invariant=['offset >= 4'])})
+         # num_spis is a 16-bit field: at most 65 535 iterations per DELETE payload whatever its length
+         # (a payload occupies >= 4 bytes, so the total stays linear in the datagram length)
+         loops={0: loop(invariant=['offset >= 4'], bound='65535')})
+
+# a trailing SK payload of a parsed chain carries the type of its first inner payload (an SK payload
+# ends the chain, so it can only be last)
+spec('sk_annotated', {'ps': List(Rec('Payload'))}, Bool,
+     'implies(len(ps) > 0 and is_a(ps[len(ps) - 1], "PayloadSK"), '
+     'as_a(ps[len(ps) - 1], "PayloadSK").next_payload_type is not None)')
 
 contract('message.Message._parse_payloads', params={'data': Bytes, 'first_payload_type': Int},
          returns=List(Rec('Payload')), props=P_PARSE,
          raises={'message.InvalidSyntax': 'True', 'message.UnsupportedCriticalPayload': 'True'},
+         ensures={'sk-annotated': 'sk_annotated(result)'},
          locals={'payloads': List(Rec('Payload'))},
-         loops={0: loop(invariant=['offset >= 0'],
-                        variant='len(data) - offset + (1 if payload_type != 0 else 0)')})
+         loops={0: loop(invariant=['offset >= 0', 'sk_annotated(payloads)'],
+                        variant='len(data) - offset + (1 if payload_type != 0 else 0)', bound='len(data) + 1')})
+
+contract('message.PayloadSK.decrypt', params={'crypto': Rec('Crypto')}, returns=Tuple(Bytes, Bytes),
+         props=['C06', 'C07', 'C17'], requires=['inv_crypto(crypto)'],
+         raises=ONLY_PROTOCOL_ERRORS)
+
+MSG_FIELDS = {'spi_i': Bytes, 'spi_r': Bytes, 'major': Int, 'minor': Int, 'exchange_type': Int,
+              'is_response': Bool, 'can_use_higher_version': Bool, 'is_initiator': Bool, 'message_id': Int,
+              'payloads': List(Rec('Payload')), 'encrypted_payloads': List(Rec('Payload')),
+              'crypto': Opt(Rec('Crypto')), 'iv': Opt(Bytes)}
+contract('message.Message.__init__', params=MSG_FIELDS, props=['C05', 'C06', 'C07'],
+         requires=['crypto is None or inv_crypto(crypto)'],
+         ensures=dict({f'field-{f}': f'result.{f} == {f}' for f in MSG_FIELDS if f != 'iv'},
+                      **{'iv-given': 'implies(iv is not None, result.iv == iv)',
+                         'iv-fresh': 'implies(crypto is not None, result.iv is not None and '
+                                     '(iv is not None or len(result.iv) == 16))',
+                         'iv-none': 'implies(crypto is None and iv is None, result.iv is None)'}))
+
+contract('message.Message.parse', params={'data': Bytes, 'header_only': Bool, 'crypto': Opt(Rec('Crypto'))},
+         returns=Rec('Message'), props=['C06', 'C17'],
+         requires=['crypto is None or inv_crypto(crypto)'],
+         raises={'message.InvalidSyntax': 'True', 'message.UnsupportedCriticalPayload': 'True'})
